@@ -29,6 +29,8 @@ func c06(c *Ctx) {
 	c06R6(c)
 	walSkipRule(c, "R7")
 	replayVotesRule(c, "R8")
+	shared(c, "C14", func(c *Ctx) { uniformApplicationRule(c, "R5") })
+	shared(c, "C07", c07R6)
 }
 
 // first call to a named callee
@@ -282,40 +284,7 @@ func c06R4(c *Ctx) {
 
 func c06R5(c *Ctx) {
 	rule := c.R.Rule("R5", "recovery restores what commit sets: the State fields assigned in CommitStateUpdateMempool after the application's commit reply (live path) are all assigned in the branch of RecoverFromCrash that resumes after an application commit (after LoadIntermediate), and LoadIntermediate dominates those assignments", 3)
-	// LoadIntermediate hands each field of the saved intermediate state to the parameter of the same role
-	if f := c.Anchor(rule, "gemmill/state.(*State).LoadIntermediate"); f != nil {
-		s2 := "gemmill/state.loadState(a0.db,g:gemmill/state.stateIntermediateKey)"
-		cs := f.CallsTo(cfgx.Named("gemmill/state.(*State).setBlockAndValidators"))
-		if len(cs) != 1 {
-			c.R.Undecided(rule, "LoadIntermediate:setBlockAndValidators", c.P.Pos(f.F.Pos()), fname(f), "expected one call")
-		}
-		sbv := c.P.F("gemmill/state.(*State).setBlockAndValidators")
-		for _, ci := range cs {
-			// map parameter -> State field it is stored into (from the callee's own stores)
-			role := map[int]string{}
-			if sbv != nil {
-				g := c.Fn(sbv)
-				for _, st := range g.Stores(func(a string) bool { return strings.HasPrefix(a, "a0.") }) {
-					if p, ok := st.Val.(*ssa.Parameter); ok {
-						for i, pp := range sbv.Params {
-							if pp == p {
-								role[i] = strings.TrimPrefix(exprOf(st.Addr), "a0.")
-							}
-						}
-					}
-				}
-			}
-			n := 0
-			for i, fld := range role {
-				n++
-				got := callArg(ci, i)
-				want1, want2 := s2+"."+fld, "gemmill/types.(*ValidatorSet).Copy("+s2+"."+fld+")"
-				c.R.Ob(rule, "LoadIntermediate:"+fld+"<-intermediate."+fld, got == want1 || got == want2, c.Pos(ci), fname(f),
-					"the recovered state's "+fld+" must be the intermediate state's "+fld+" (a swapped pair leaves the node with the previous height's validator set as current: wrong proposer, wrong ValidatorsHash after every recovery); got "+shorten(strings.Replace(got, s2, "s2", -1)))
-			}
-			c.R.Ob(rule, "LoadIntermediate:roles-resolved", n >= 6, c.Pos(ci), fname(f), fmt.Sprintf("%d parameters mapped to State fields", n))
-		}
-	}
+	loadIntermediateRoles(c, rule)
 	live := map[string]bool{}
 	if f := c.Anchor(rule, "gemmill/state.(*State).CommitStateUpdateMempool"); f != nil {
 		for _, b := range f.F.Blocks {
@@ -435,4 +404,43 @@ func c06R6(c *Ctx) {
 	}
 	c.R.Ob(rule, "ConnectApp:recover-error-fatal", fatal, c.Pos(rc), fname(f), "a failed reconciliation must stop the node")
 	c.R.Ob(rule, "ConnectApp:recover-args", strings.Contains(callArg(rc, 1), ".Info()") && strings.Contains(callArg(rc, 2), ".Info()"), c.Pos(rc), fname(f), "RecoverFromCrash must be given the application's own last hash/height")
+}
+
+
+// loadIntermediateRoles (part of C06-R5; also C16-R10): LoadIntermediate hands each field of the saved
+// intermediate state to the parameter of the same role.
+func loadIntermediateRoles(c *Ctx, rule string) {
+	if f := c.Anchor(rule, "gemmill/state.(*State).LoadIntermediate"); f != nil {
+		s2 := "gemmill/state.loadState(a0.db,g:gemmill/state.stateIntermediateKey)"
+		cs := f.CallsTo(cfgx.Named("gemmill/state.(*State).setBlockAndValidators"))
+		if len(cs) != 1 {
+			c.R.Undecided(rule, "LoadIntermediate:setBlockAndValidators", c.P.Pos(f.F.Pos()), fname(f), "expected one call")
+		}
+		sbv := c.P.F("gemmill/state.(*State).setBlockAndValidators")
+		for _, ci := range cs {
+			// map parameter -> State field it is stored into (from the callee's own stores)
+			role := map[int]string{}
+			if sbv != nil {
+				g := c.Fn(sbv)
+				for _, st := range g.Stores(func(a string) bool { return strings.HasPrefix(a, "a0.") }) {
+					if p, ok := st.Val.(*ssa.Parameter); ok {
+						for i, pp := range sbv.Params {
+							if pp == p {
+								role[i] = strings.TrimPrefix(exprOf(st.Addr), "a0.")
+							}
+						}
+					}
+				}
+			}
+			n := 0
+			for i, fld := range role {
+				n++
+				got := callArg(ci, i)
+				want1, want2 := s2+"."+fld, "gemmill/types.(*ValidatorSet).Copy("+s2+"."+fld+")"
+				c.R.Ob(rule, "LoadIntermediate:"+fld+"<-intermediate."+fld, got == want1 || got == want2, c.Pos(ci), fname(f),
+					"the recovered state's "+fld+" must be the intermediate state's "+fld+" (a swapped pair leaves the node with the previous height's validator set as current: wrong proposer, wrong ValidatorsHash after every recovery); got "+shorten(strings.Replace(got, s2, "s2", -1)))
+			}
+			c.R.Ob(rule, "LoadIntermediate:roles-resolved", n >= 6, c.Pos(ci), fname(f), fmt.Sprintf("%d parameters mapped to State fields", n))
+		}
+	}
 }
